@@ -3,7 +3,8 @@ import GBS.Lemmas.RoundTrip
 # The text form of a distribution reproduces its parameters
 
 `parseDist (printDist d) = d` on characters for the two-parameter families that print their parameters with `repr`
-(gauss, schulz_zimm, log_normal): dispatch by substring (`get_distribution`), `strip("| \t\n")`, `startswith`, and the evaluation of
+(gauss, schulz_zimm, log_normal), for flory_schulz (one parenthesised number), poisson (`float` of a slice) and uniform (integer bounds):
+dispatch by substring (`get_distribution`), `strip("| \t\n")`, `startswith`, and the evaluation of
 the argument text by the model of `ast.literal_eval` (`pyValue` / `pyItems` / `takeNumber` / `numberLit`).  The side condition
 `DistNumOK` on the printed form of each parameter is decidable for every concrete number.
 -/
@@ -119,19 +120,19 @@ theorem takeNumber_extend (c : Char) (r : Str) : ∀ (t acc x : Str), takeNumber
       cases ys <;> simp at h2
 
 /-- what the distribution round trip needs to know about the printed form of a parameter (decidable for every concrete number) -/
-def DistNumOK (w : Rat) : Prop :=
-  numberLit (numStr w) = .ok w ∧
-  takeNumber [] (numStr w ++ [',']) = (numStr w, [',']) ∧ takeNumber [] (numStr w ++ [')']) = (numStr w, [')']) ∧
-  (∀ c ∈ numStr w, c.isDigit = true ∨ c = '.' ∨ c = 'e' ∨ c = '-' ∨ c = '+') ∧
-  ((numStr w).head?.map Char.isDigit) = some true
+def TokOK (t : Str) (w : Rat) : Prop :=
+  numberLit (t) = .ok w ∧
+  takeNumber [] (t ++ [',']) = (t, [',']) ∧ takeNumber [] (t ++ [')']) = (t, [')']) ∧
+  (∀ c ∈ t, c.isDigit = true ∨ c = '.' ∨ c = 'e' ∨ c = '-' ∨ c = '+') ∧
+  ((t).head?.map Char.isDigit) = some true
 
-theorem DistNumOK.head {w : Rat} (h : DistNumOK w) : ∃ x xs, numStr w = x :: xs ∧ x.isDigit = true := by
+theorem TokOK.head {t : Str} {w : Rat} (h : TokOK t w) : ∃ x xs, t = x :: xs ∧ x.isDigit = true := by
   have := h.2.2.2.2
-  cases hs : numStr w with
+  cases hs : t with
   | nil => rw [hs] at this; simp at this
   | cons x xs => rw [hs] at this; simp at this; exact ⟨x, xs, rfl, this⟩
 
-theorem DistNumOK.no_hash {w : Rat} (h : DistNumOK w) : ∀ c ∈ numStr w, c ≠ '#' := by
+theorem TokOK.no_hash {t : Str} {w : Rat} (h : TokOK t w) : ∀ c ∈ t, c ≠ '#' := by
   intro c hc
   rcases h.2.2.2.1 c hc with h1 | h1 | h1 | h1 | h1
   · intro h2; subst h2; simp at h1
@@ -142,20 +143,20 @@ theorem digit_facts {x : Char} (h : x.isDigit = true) :
   refine ⟨isWs_of_digit h, ?_, ?_, ?_, ?_, ?_⟩ <;> (intro h2; subst h2; simp at h)
 
 /-- one number in front of `,` or `)` -/
-theorem pyValue_number (f : Nat) (w : Rat) (h : DistNumOK w) (c : Char) (hc : c = ',' ∨ c = ')') (r : Str) :
-    pyValue (f + 1) (numStr w ++ c :: r) = .ok (.num w, c :: r) := by
+theorem pyValue_number (f : Nat) (t : Str) (w : Rat) (h : TokOK t w) (c : Char) (hc : c = ',' ∨ c = ')') (r : Str) :
+    pyValue (f + 1) (t ++ c :: r) = .ok (.num w, c :: r) := by
   obtain ⟨x, xs, hx, hxd⟩ := h.head
   obtain ⟨hlit, htc, htp, -, -⟩ := h
   obtain ⟨hws, hm, hp, ho, -, -⟩ := digit_facts hxd
-  have htake : takeNumber [] (numStr w ++ c :: r) = (numStr w, c :: r) := by
+  have htake : takeNumber [] (t ++ c :: r) = (t, c :: r) := by
     rcases hc with rfl | rfl
     · exact takeNumber_extend _ _ _ _ _ htc
     · exact takeNumber_extend _ _ _ _ _ htp
-  have hskip : skipWs (numStr w ++ c :: r) = numStr w ++ c :: r := by
+  have hskip : skipWs (t ++ c :: r) = t ++ c :: r := by
     unfold skipWs; rw [hx]; simp [List.dropWhile_cons, hws]
   rw [pyValue]
   rw [hskip]
-  have hne : (numStr w).isEmpty = false := by rw [hx]; rfl
+  have hne : (t).isEmpty = false := by rw [hx]; rfl
   split
   · rename_i r' heq; rw [hx] at heq; simp at heq; exact absurd heq.1 hm
   · rename_i r' heq; rw [hx] at heq; simp at heq; exact absurd heq.1 hp
@@ -204,23 +205,23 @@ theorem pyValue_space (f : Nat) (s : Str) : pyValue (f + 1) (' ' :: s) = pyValue
   have : skipWs (' ' :: s) = skipWs s := by unfold skipWs; simp [isWs]
   rw [this]
 
-theorem skipWs_digit (w : Rat) (h : DistNumOK w) (r : Str) : ∃ x xs, skipWs (numStr w ++ r) = x :: xs ∧ x ≠ ')' := by
+theorem skipWs_digit (t : Str) (w : Rat) (h : TokOK t w) (r : Str) : ∃ x xs, skipWs (t ++ r) = x :: xs ∧ x ≠ ')' := by
   obtain ⟨x, xs, hx, hxd⟩ := h.head
   obtain ⟨hws, -, -, -, hcl, -⟩ := digit_facts hxd
   refine ⟨x, xs ++ r, ?_, hcl⟩
   unfold skipWs; rw [hx]; simp [hws]
 
 /-- `(a, b)` -/
-theorem pyValue_pair (n : Nat) (a b : Rat) (ha : DistNumOK a) (hb : DistNumOK b) (tail : Str) :
-    pyValue (n + 4) ('(' :: (numStr a ++ ',' :: ' ' :: (numStr b ++ ')' :: tail))) = .ok (.tup [.num a, .num b], tail) := by
-  obtain ⟨x, xs, hsk, hx⟩ := skipWs_digit a ha (',' :: ' ' :: (numStr b ++ ')' :: tail))
+theorem pyValue_pair (n : Nat) (ta tb : Str) (a b : Rat) (ha : TokOK ta a) (hb : TokOK tb b) (tail : Str) :
+    pyValue (n + 4) ('(' :: (ta ++ ',' :: ' ' :: (tb ++ ')' :: tail))) = .ok (.tup [.num a, .num b], tail) := by
+  obtain ⟨x, xs, hsk, hx⟩ := skipWs_digit ta a ha (',' :: ' ' :: (tb ++ ')' :: tail))
   refine pyValue_paren_tuple (n + 3) _ _ x xs _ _ (by unfold skipWs; simp [isWs]) hsk hx ?_
-  obtain ⟨y, ys, hsk2, hy⟩ := skipWs_digit b hb (')' :: tail)
-  have hsk2' : skipWs (' ' :: (numStr b ++ ')' :: tail)) = y :: ys := by
-    have : skipWs (' ' :: (numStr b ++ ')' :: tail)) = skipWs (numStr b ++ ')' :: tail) := by unfold skipWs; simp [isWs]
+  obtain ⟨y, ys, hsk2, hy⟩ := skipWs_digit tb b hb (')' :: tail)
+  have hsk2' : skipWs (' ' :: (tb ++ ')' :: tail)) = y :: ys := by
+    have : skipWs (' ' :: (tb ++ ')' :: tail)) = skipWs (tb ++ ')' :: tail) := by unfold skipWs; simp [isWs]
     rw [this, hsk2]
-  rw [pyItems_comma (n + 2) _ [] false (.num a) _ y ys (pyValue_number (n + 1) a ha ',' (Or.inl rfl) _) hsk2' hy]
-  rw [pyItems_close (n + 1) _ _ true (.num b) tail (by rw [pyValue_space]; exact pyValue_number n b hb ')' (Or.inr rfl) tail)]
+  rw [pyItems_comma (n + 2) _ [] false (.num a) _ y ys (pyValue_number (n + 1) ta a ha ',' (Or.inl rfl) _) hsk2' hy]
+  rw [pyItems_close (n + 1) _ _ true (.num b) tail (by rw [pyValue_space]; exact pyValue_number n tb b hb ')' (Or.inr rfl) tail)]
   rfl
 
 theorem takeWhile_all {α : Type} (p : α → Bool) (l : List α) (h : ∀ x ∈ l, p x = true) : l.takeWhile p = l := by
@@ -229,12 +230,12 @@ theorem takeWhile_all {α : Type} (p : α → Bool) (l : List α) (h : ∀ x ∈
   | cons x xs ih => simp [List.takeWhile_cons, h x List.mem_cons_self, ih (fun y hy => h y (List.mem_cons_of_mem _ hy))]
 
 /-- the argument text `(a, b)` of a two-parameter distribution -/
-def pairText (a b : Rat) : Str := '(' :: (numStr a ++ ',' :: ' ' :: (numStr b ++ [')']))
+def pairTextOf (ta tb : Str) : Str := '(' :: (ta ++ ',' :: ' ' :: (tb ++ [')']))
 
-theorem parseTuple_pair (a b : Rat) (ha : DistNumOK a) (hb : DistNumOK b) : parseTuple (pairText a b) = .ok ([a, b], true) := by
-  have hnohash : ∀ c ∈ pairText a b, (c != '#') = true := by
+theorem parseTuple_pair (ta tb : Str) (a b : Rat) (ha : TokOK ta a) (hb : TokOK tb b) : parseTuple (pairTextOf ta tb) = .ok ([a, b], true) := by
+  have hnohash : ∀ c ∈ pairTextOf ta tb, (c != '#') = true := by
     intro c hc
-    simp only [pairText, List.mem_cons, List.mem_append, List.mem_nil_iff, or_false] at hc
+    simp only [pairTextOf, List.mem_cons, List.mem_append, List.mem_nil_iff, or_false] at hc
     rcases hc with rfl | hc | rfl | rfl | hc | rfl
     · decide
     · simpa using ha.no_hash c hc
@@ -244,36 +245,36 @@ theorem parseTuple_pair (a b : Rat) (ha : DistNumOK a) (hb : DistNumOK b) : pars
     · decide
   unfold parseTuple
   simp only [takeWhile_all _ _ hnohash]
-  have hv : pyValue (2 * (pairText a b).length + 5) (pairText a b ++ [')']) = .ok (.tup [.num a, .num b], [')']) := by
-    have := pyValue_pair (2 * (pairText a b).length + 1) a b ha hb [')']
-    simpa [pairText] using this
+  have hv : pyValue (2 * (pairTextOf ta tb).length + 5) (pairTextOf ta tb ++ [')']) = .ok (.tup [.num a, .num b], [')']) := by
+    have := pyValue_pair (2 * (pairTextOf ta tb).length + 1) ta tb a b ha hb [')']
+    simpa [pairTextOf] using this
   rw [pyItems_close _ _ [] false _ [] hv]
   simp [List.mapM_cons, List.mapM_nil, pure, Except.pure]
   rfl
 
-theorem mem_pairText {a b : Rat} (ha : DistNumOK a) (hb : DistNumOK b) {c : Char} (hc : c ∈ pairText a b) :
+theorem mem_pairText {ta tb : Str} {a b : Rat} (ha : TokOK ta a) (hb : TokOK tb b) {c : Char} (hc : c ∈ pairTextOf ta tb) :
     c.isDigit = true ∨ c ∈ ['.', 'e', '-', '+', '(', ',', ' ', ')'] := by
-  simp only [pairText, List.mem_cons, List.mem_append, List.mem_nil_iff, or_false] at hc
-  have num : ∀ w, DistNumOK w → c ∈ numStr w → c.isDigit = true ∨ c ∈ ['.', 'e', '-', '+', '(', ',', ' ', ')'] := by
-    intro w hw h
+  simp only [pairTextOf, List.mem_cons, List.mem_append, List.mem_nil_iff, or_false] at hc
+  have num : ∀ (t : Str) (w : Rat), TokOK t w → c ∈ t → c.isDigit = true ∨ c ∈ ['.', 'e', '-', '+', '(', ',', ' ', ')'] := by
+    intro t w hw h
     rcases hw.2.2.2.1 c h with h1 | h1 | h1 | h1 | h1
     · exact Or.inl h1
     all_goals (right; subst h1; decide)
   rcases hc with rfl | hc | rfl | rfl | hc | rfl
   · right; decide
-  · exact num a ha hc
+  · exact num ta a ha hc
   · right; decide
   · right; decide
-  · exact num b hb hc
+  · exact num tb b hb hc
   · right; decide
 
 /-- the printed form of a two-parameter distribution whose name is `name` -/
-def distText (name : Str) (a b : Rat) : Str := '|' :: (name ++ (pairText a b ++ ['|']))
+def distTextOf (name ta tb : Str) : Str := '|' :: (name ++ (pairTextOf ta tb ++ ['|']))
 
-theorem absent_distText (name : Str) {a b : Rat} (ha : DistNumOK a) (hb : DistNumOK b) (c : Char)
-    (hd : c.isDigit = false) (hp : c ∉ ['.', 'e', '-', '+', '(', ',', ' ', ')', '|']) (hn : c ∉ name) : c ∉ distText name a b := by
+theorem absent_distText (name : Str) {ta tb : Str} {a b : Rat} (ha : TokOK ta a) (hb : TokOK tb b) (c : Char)
+    (hd : c.isDigit = false) (hp : c ∉ ['.', 'e', '-', '+', '(', ',', ' ', ')', '|']) (hn : c ∉ name) : c ∉ distTextOf name ta tb := by
   intro hc
-  simp only [distText, List.mem_cons, List.mem_append, List.mem_nil_iff, or_false] at hc
+  simp only [distTextOf, List.mem_cons, List.mem_append, List.mem_nil_iff, or_false] at hc
   rcases hc with rfl | hc | hc | rfl
   · exact hp (by decide)
   · exact hn hc
@@ -284,37 +285,40 @@ theorem absent_distText (name : Str) {a b : Rat} (ha : DistNumOK a) (hb : DistNu
       rcases h1 with h | h | h | h | h | h | h | h <;> simp [h]
   · exact hp (by decide)
 
-theorem strip_distText (name : Str) (a b : Rat) (x : Char) (xs : Str) (hname : name = x :: xs)
-    (hx : ("| \t\n".toList).contains x = false) : stripChars "| \t\n".toList (distText name a b) = name ++ pairText a b := by
-  unfold stripChars distText
-  have hrev : ∃ ys, (name ++ pairText a b).reverse = ')' :: ys := by
-    refine ⟨(name ++ '(' :: (numStr a ++ ',' :: ' ' :: numStr b)).reverse, ?_⟩
-    simp [pairText]
+theorem strip_distText (name ta tb : Str) (x : Char) (xs : Str) (hname : name = x :: xs)
+    (hx : ("| \t\n".toList).contains x = false) : stripChars "| \t\n".toList (distTextOf name ta tb) = name ++ pairTextOf ta tb := by
+  unfold stripChars distTextOf
+  have hrev : ∃ ys, (name ++ pairTextOf ta tb).reverse = ')' :: ys := by
+    refine ⟨(name ++ '(' :: (ta ++ ',' :: ' ' :: tb)).reverse, ?_⟩
+    simp [pairTextOf]
   obtain ⟨ys, hys⟩ := hrev
-  have := stripBy_sandwich (fun c => ("| \t\n".toList).contains c) ['|'] (name ++ pairText a b) ['|']
+  have := stripBy_sandwich (fun c => ("| \t\n".toList).contains c) ['|'] (name ++ pairTextOf ta tb) ['|']
     (by intro c hc; simp at hc; subst hc; decide) (by intro c hc; simp at hc; subst hc; decide)
-    x (xs ++ pairText a b) (by rw [hname]; rfl) hx ')' ys hys (by decide)
+    x (xs ++ pairTextOf ta tb) (by rw [hname]; rfl) hx ')' ys hys (by decide)
   simpa using this
 
 /-- the part of `parseDist` behind the dispatch, for a two-parameter family printed as `|name(a, b)|` -/
-theorem parseDist_pair (fam : FamilyName) (name : Str) (a b : Rat) (ha : DistNumOK a) (hb : DistNumOK b)
+theorem parseDist_pair (fam : FamilyName) (name ta tb : Str) (a b : Rat) (ha : TokOK ta a) (hb : TokOK tb b)
     (hname : (famText fam).toList = name) (x : Char) (xs : Str) (hx : name = x :: xs) (hxs : ("| \t\n".toList).contains x = false)
-    (hdisp : distDispatch.find? (fun p => contains (distText name a b) p.1.toList) = some (famText fam, fam))
+    (hdisp : distDispatch.find? (fun p => contains (distTextOf name ta tb) p.1.toList) = some (famText fam, fam))
     (hp : (fam == FamilyName.poisson) = false) (hu : (fam == FamilyName.uniform) = false) (har : famArity fam = 2)
     (hsz : (fam == FamilyName.schulzZimm) = true → a ≠ b) :
-    parseDist (distText name a b) = .ok { fam := fam, params := [a, b] } := by
-  have hstrip := strip_distText name a b x xs hx hxs
-  have hdrop : ((name ++ pairText a b).drop name.length) = pairText a b := List.drop_left
+    parseDist (distTextOf name ta tb) = .ok { fam := fam, params := [a, b] } := by
+  have hstrip := strip_distText name ta tb x xs hx hxs
+  have hdrop : ((name ++ pairTextOf ta tb).drop name.length) = pairTextOf ta tb := List.drop_left
   unfold parseDist
   rw [hdisp]
-  simp only [hname, hstrip, startsWith, isPrefix_append, hdrop, parseTuple_pair a b ha hb, hp, hu, har]
+  simp only [hname, hstrip, startsWith, isPrefix_append, hdrop, parseTuple_pair ta tb a b ha hb, hp, hu, har]
   by_cases hz : (fam == FamilyName.schulzZimm) = true
   · have : (a == b) = false := by simpa using hsz hz
     simp [hz, this]
   · simp [hz]
 
-theorem printDist_gauss (a b : Rat) : printDist { fam := .gauss, params := [a, b] } = distText "gauss".toList a b := by
-  simp [printDist, distText, pairText, famText]
+/-- the side condition for a parameter printed with `repr` -/
+abbrev DistNumOK (w : Rat) : Prop := TokOK (numStr w) w
+
+theorem printDist_gauss (a b : Rat) : printDist { fam := .gauss, params := [a, b] } = distTextOf "gauss".toList (numStr a) (numStr b) := by
+  simp [printDist, distTextOf, pairTextOf, famText]
 
 /-- **C01 / C11 (the text form reproduces the parameters: gauss)** -/
 theorem dist_gauss_roundtrip (a b : Rat) (ha : DistNumOK a) (hb : DistNumOK b) :
@@ -323,15 +327,15 @@ theorem dist_gauss_roundtrip (a b : Rat) (ha : DistNumOK a) (hb : DistNumOK b) :
   generalize hn : "gauss".toList = name
   have hx : name = 'g' :: ['a', 'u', 's', 's'] := by rw [← hn]; decide
   have hf : ∀ c, c ∈ name → c ∈ ['g', 'a', 'u', 's'] := by intro c hc; rw [hx] at hc; simp at hc ⊢; tauto
-  have h1 : contains (distText name a b) "flory_schulz".toList = false :=
+  have h1 : contains (distTextOf name (numStr a) (numStr b)) "flory_schulz".toList = false :=
     contains_absent _ _ 'f' (by decide) (absent_distText _ ha hb 'f' (by decide) (by decide) (fun h => by have := hf _ h; simp at this))
-  have h2 : contains (distText name a b) "gauss".toList = true := by rw [hn]; exact contains_at_one _ _ _
-  refine parseDist_pair .gauss name a b ha hb (by rw [← hn]; rfl) 'g' _ hx (by decide) ?_ (by decide) (by decide) rfl (by intro h; cases h)
+  have h2 : contains (distTextOf name (numStr a) (numStr b)) "gauss".toList = true := by rw [hn]; exact contains_at_one _ _ _
+  refine parseDist_pair .gauss name (numStr a) (numStr b) a b ha hb (by rw [← hn]; rfl) 'g' _ hx (by decide) ?_ (by decide) (by decide) rfl (by intro h; cases h)
   simp only [distDispatch, List.find?_cons, h1, h2]
   rfl
 
-theorem printDist_schulzZimm (a b : Rat) : printDist { fam := .schulzZimm, params := [a, b] } = distText "schulz_zimm".toList a b := by
-  simp [printDist, distText, pairText, famText]
+theorem printDist_schulzZimm (a b : Rat) : printDist { fam := .schulzZimm, params := [a, b] } = distTextOf "schulz_zimm".toList (numStr a) (numStr b) := by
+  simp [printDist, distTextOf, pairTextOf, famText]
 
 /-- **C01 / C11 (the text form reproduces the parameters: schulz_zimm, Mw ≠ Mn)** -/
 theorem dist_schulzZimm_roundtrip (a b : Rat) (hab : a ≠ b) (ha : DistNumOK a) (hb : DistNumOK b) :
@@ -341,19 +345,19 @@ theorem dist_schulzZimm_roundtrip (a b : Rat) (hab : a ≠ b) (ha : DistNumOK a)
   have hx : name = 's' :: ['c', 'h', 'u', 'l', 'z', '_', 'z', 'i', 'm', 'm'] := by rw [← hn]; decide
   have hf : ∀ c, c ∈ name → c ∈ ['s', 'c', 'h', 'u', 'l', 'z', '_', 'i', 'm'] := by intro c hc; rw [hx] at hc; simp at hc ⊢; tauto
   have ab : ∀ c, c ∉ ['s', 'c', 'h', 'u', 'l', 'z', '_', 'i', 'm'] → c ∉ name := fun c h h' => h (hf c h')
-  have h1 : contains (distText name a b) "flory_schulz".toList = false :=
+  have h1 : contains (distTextOf name (numStr a) (numStr b)) "flory_schulz".toList = false :=
     contains_absent _ _ 'f' (by decide) (absent_distText _ ha hb 'f' (by decide) (by decide) (ab _ (by decide)))
-  have h2 : contains (distText name a b) "gauss".toList = false :=
+  have h2 : contains (distTextOf name (numStr a) (numStr b)) "gauss".toList = false :=
     contains_absent _ _ 'g' (by decide) (absent_distText _ ha hb 'g' (by decide) (by decide) (ab _ (by decide)))
-  have h3 : contains (distText name a b) "uniform".toList = false :=
+  have h3 : contains (distTextOf name (numStr a) (numStr b)) "uniform".toList = false :=
     contains_absent _ _ 'f' (by decide) (absent_distText _ ha hb 'f' (by decide) (by decide) (ab _ (by decide)))
-  have h4 : contains (distText name a b) "schulz_zimm".toList = true := by rw [hn]; exact contains_at_one _ _ _
-  refine parseDist_pair .schulzZimm name a b ha hb (by rw [← hn]; rfl) 's' _ hx (by decide) ?_ (by decide) (by decide) rfl (fun _ => hab)
+  have h4 : contains (distTextOf name (numStr a) (numStr b)) "schulz_zimm".toList = true := by rw [hn]; exact contains_at_one _ _ _
+  refine parseDist_pair .schulzZimm name (numStr a) (numStr b) a b ha hb (by rw [← hn]; rfl) 's' _ hx (by decide) ?_ (by decide) (by decide) rfl (fun _ => hab)
   simp only [distDispatch, List.find?_cons, h1, h2, h3, h4]
   rfl
 
-theorem printDist_logNormal (a b : Rat) : printDist { fam := .logNormal, params := [a, b] } = distText "log_normal".toList a b := by
-  simp [printDist, distText, pairText, famText]
+theorem printDist_logNormal (a b : Rat) : printDist { fam := .logNormal, params := [a, b] } = distTextOf "log_normal".toList (numStr a) (numStr b) := by
+  simp [printDist, distTextOf, pairTextOf, famText]
 
 /-- **C01 / C11 (the text form reproduces the parameters: log_normal)** -/
 theorem dist_logNormal_roundtrip (a b : Rat) (ha : DistNumOK a) (hb : DistNumOK b) :
@@ -363,21 +367,195 @@ theorem dist_logNormal_roundtrip (a b : Rat) (ha : DistNumOK a) (hb : DistNumOK 
   have hx : name = 'l' :: ['o', 'g', '_', 'n', 'o', 'r', 'm', 'a', 'l'] := by rw [← hn]; decide
   have hf : ∀ c, c ∈ name → c ∈ ['l', 'o', 'g', '_', 'n', 'r', 'm', 'a'] := by intro c hc; rw [hx] at hc; simp at hc ⊢; tauto
   have ab : ∀ c, c ∉ ['l', 'o', 'g', '_', 'n', 'r', 'm', 'a'] → c ∉ name := fun c h h' => h (hf c h')
-  have h1 : contains (distText name a b) "flory_schulz".toList = false :=
+  have h1 : contains (distTextOf name (numStr a) (numStr b)) "flory_schulz".toList = false :=
     contains_absent _ _ 'f' (by decide) (absent_distText _ ha hb 'f' (by decide) (by decide) (ab _ (by decide)))
-  have h2 : contains (distText name a b) "gauss".toList = false :=
+  have h2 : contains (distTextOf name (numStr a) (numStr b)) "gauss".toList = false :=
     contains_absent _ _ 'u' (by decide) (absent_distText _ ha hb 'u' (by decide) (by decide) (ab _ (by decide)))
-  have h3 : contains (distText name a b) "uniform".toList = false :=
+  have h3 : contains (distTextOf name (numStr a) (numStr b)) "uniform".toList = false :=
     contains_absent _ _ 'u' (by decide) (absent_distText _ ha hb 'u' (by decide) (by decide) (ab _ (by decide)))
-  have h4 : contains (distText name a b) "schulz_zimm".toList = false :=
+  have h4 : contains (distTextOf name (numStr a) (numStr b)) "schulz_zimm".toList = false :=
     contains_absent _ _ 's' (by decide) (absent_distText _ ha hb 's' (by decide) (by decide) (ab _ (by decide)))
-  have h5 : contains (distText name a b) "log_normal".toList = true := by rw [hn]; exact contains_at_one _ _ _
-  refine parseDist_pair .logNormal name a b ha hb (by rw [← hn]; rfl) 'l' _ hx (by decide) ?_ (by decide) (by decide) rfl (by intro h; cases h)
+  have h5 : contains (distTextOf name (numStr a) (numStr b)) "log_normal".toList = true := by rw [hn]; exact contains_at_one _ _ _
+  refine parseDist_pair .logNormal name (numStr a) (numStr b) a b ha hb (by rw [← hn]; rfl) 'l' _ hx (by decide) ?_ (by decide) (by decide) rfl (by intro h; cases h)
   simp only [distDispatch, List.find?_cons, h1, h2, h3, h4, h5]
   rfl
 
 /-- non-vacuity of the side condition: 1500.0, 50.0, 2.5e-05, 1.05 -/
 example : DistNumOK 1500 ∧ DistNumOK 50 ∧ DistNumOK (1 / 40000) ∧ DistNumOK (21 / 20) := by
   refine ⟨⟨?_, ?_, ?_, ?_, ?_⟩, ⟨?_, ?_, ?_, ?_, ?_⟩, ⟨?_, ?_, ?_, ?_, ?_⟩, ⟨?_, ?_, ?_, ?_, ?_⟩⟩ <;> decide +kernel
+
+/-! ## one-parameter families -/
+
+/-- the argument text `(a)` of a one-parameter distribution -/
+def singleText (a : Rat) : Str := '(' :: (numStr a ++ [')'])
+
+theorem pyValue_single (n : Nat) (a : Rat) (ha : DistNumOK a) (tail : Str) :
+    pyValue (n + 3) ('(' :: (numStr a ++ ')' :: tail)) = .ok (.num a, tail) := by
+  obtain ⟨x, xs, hsk, hx⟩ := skipWs_digit (numStr a) a ha (')' :: tail)
+  refine pyValue_paren_single (n + 2) _ _ x xs _ _ (by unfold skipWs; simp [isWs]) hsk hx ?_
+  rw [pyItems_close (n + 1) _ _ false (.num a) tail (pyValue_number n (numStr a) a ha ')' (Or.inr rfl) tail)]
+  rfl
+
+theorem parseTuple_single (a : Rat) (ha : DistNumOK a) : parseTuple (singleText a) = .ok ([a], false) := by
+  have hnohash : ∀ c ∈ singleText a, (c != '#') = true := by
+    intro c hc
+    simp only [singleText, List.mem_cons, List.mem_append, List.mem_nil_iff, or_false] at hc
+    rcases hc with rfl | hc | rfl
+    · decide
+    · simpa using ha.no_hash c hc
+    · decide
+  unfold parseTuple
+  simp only [takeWhile_all _ _ hnohash]
+  have hv : pyValue (2 * (singleText a).length + 5) (singleText a ++ [')']) = .ok (.num a, [')']) := by
+    have := pyValue_single (2 * (singleText a).length + 2) a ha [')']
+    simpa [singleText] using this
+  rw [pyItems_close _ _ [] false _ [] hv]
+  simp
+
+def distText1 (name : Str) (a : Rat) : Str := '|' :: (name ++ (singleText a ++ ['|']))
+
+theorem printDist_florySchulz (a : Rat) : printDist { fam := .florySchulz, params := [a] } = distText1 "flory_schulz".toList a := by
+  simp [printDist, distText1, singleText, famText]
+
+/-- **C01 / C11 (the text form reproduces the parameter: flory_schulz)** -/
+theorem dist_florySchulz_roundtrip (a : Rat) (ha : DistNumOK a) :
+    parseDist (printDist { fam := .florySchulz, params := [a] }) = .ok { fam := .florySchulz, params := [a] } := by
+  rw [printDist_florySchulz]
+  generalize hn : "flory_schulz".toList = name
+  have hx : name = 'f' :: ['l', 'o', 'r', 'y', '_', 's', 'c', 'h', 'u', 'l', 'z'] := by rw [← hn]; decide
+  have h1 : contains (distText1 name a) "flory_schulz".toList = true := by rw [hn]; exact contains_at_one _ _ _
+  have hrev : ∃ ys, (name ++ singleText a).reverse = ')' :: ys := ⟨(name ++ '(' :: numStr a).reverse, by simp [singleText]⟩
+  obtain ⟨ys, hys⟩ := hrev
+  have hstrip : stripChars "| \t\n".toList (distText1 name a) = name ++ singleText a := by
+    unfold stripChars distText1
+    have := stripBy_sandwich (fun c => ("| \t\n".toList).contains c) ['|'] (name ++ singleText a) ['|']
+      (by intro c hc; simp at hc; subst hc; decide) (by intro c hc; simp at hc; subst hc; decide)
+      'f' (['l', 'o', 'r', 'y', '_', 's', 'c', 'h', 'u', 'l', 'z'] ++ singleText a) (by rw [hx]; rfl) (by decide) ')' ys hys (by decide)
+    simpa using this
+  have hdrop : ((name ++ singleText a).drop name.length) = singleText a := List.drop_left
+  have hname : (famText FamilyName.florySchulz).toList = name := by rw [← hn]; rfl
+  unfold parseDist
+  simp only [distDispatch, List.find?_cons, h1]
+  simp only [hname, hstrip, startsWith, isPrefix_append, hdrop, parseTuple_single a ha]
+  have e1 : (FamilyName.florySchulz == FamilyName.poisson) = false := by decide
+  have e2 : (FamilyName.florySchulz == FamilyName.uniform) = false := by decide
+  have e3 : (FamilyName.florySchulz == FamilyName.schulzZimm) = false := by decide
+  simp [e1, e2, e3, famArity]
+
+theorem absent_distText1 (name : Str) {a : Rat} (ha : DistNumOK a) (c : Char)
+    (hd : c.isDigit = false) (hp : c ∉ ['.', 'e', '-', '+', '(', ')', '|']) (hn : c ∉ name) : c ∉ distText1 name a := by
+  intro hc
+  simp only [distText1, singleText, List.mem_cons, List.mem_append, List.mem_nil_iff, or_false] at hc
+  rcases hc with rfl | hc | (rfl | hc | rfl) | rfl
+  · exact hp (by decide)
+  · exact hn hc
+  · exact hp (by decide)
+  · rcases ha.2.2.2.1 c hc with h1 | h1 | h1 | h1 | h1
+    · rw [h1] at hd; cases hd
+    all_goals (subst h1; exact hp (by decide))
+  · exact hp (by decide)
+  · exact hp (by decide)
+
+theorem slice_inner (name t : Str) :
+    slice (name ++ ('(' :: (t ++ [')']))) (some ((name.length : Int) + 1)) (some (-1)) = t := by
+  unfold slice clampIdx
+  simp only [List.length_append, List.length_cons, List.length_nil]
+  have h1 : ¬ ((name.length : Int) + 1 < 0) := by omega
+  have h2 : ((-1 : Int) < 0) := by omega
+  simp only [h1, h2, if_false, if_true]
+  have h3 : ¬ ((name.length : Int) + 1 > ((name.length + (t.length + (0 + 1) + 1) : Nat) : Int)) := by push_cast; omega
+  have h4 : ¬ ((-1 : Int) + ((name.length + (t.length + (0 + 1) + 1) : Nat) : Int) < 0) := by push_cast; omega
+  have h5 : ¬ ((-1 : Int) + ((name.length + (t.length + (0 + 1) + 1) : Nat) : Int) > ((name.length + (t.length + (0 + 1) + 1) : Nat) : Int)) := by push_cast; omega
+  simp only [h3, h4, h5, if_false]
+  have e1 : ((name.length : Int) + 1).toNat = name.length + 1 := by omega
+  have e2 : ((-1 : Int) + ((name.length + (t.length + (0 + 1) + 1) : Nat) : Int)).toNat = name.length + t.length + 1 := by push_cast; omega
+  rw [e1, e2]
+  have : name.length + t.length + 1 - (name.length + 1) = t.length := by omega
+  rw [this]
+  have hd : List.drop (name.length + 1) (name ++ '(' :: (t ++ [')'])) = t ++ [')'] := by
+    rw [List.drop_append]; simp
+  rw [hd]; simp
+
+theorem printDist_poisson (a : Rat) : printDist { fam := .poisson, params := [a] } = distText1 "poisson".toList a := by
+  simp [printDist, distText1, singleText, famText]
+
+/-- **C01 / C11 (the text form reproduces the parameter: poisson)** — this family reads its parameter with `float(text[len("poisson") + 1 : -1])` -/
+theorem dist_poisson_roundtrip (a : Rat) (ha : DistNumOK a) (hpf : parseFloat (numStr a) = .ok a) :
+    parseDist (printDist { fam := .poisson, params := [a] }) = .ok { fam := .poisson, params := [a] } := by
+  rw [printDist_poisson]
+  generalize hn : "poisson".toList = name
+  have hx : name = 'p' :: ['o', 'i', 's', 's', 'o', 'n'] := by rw [← hn]; decide
+  have hf : ∀ c, c ∈ name → c ∈ ['p', 'o', 'i', 's', 'n'] := by intro c hc; rw [hx] at hc; simp at hc ⊢; tauto
+  have ab : ∀ c, c ∉ ['p', 'o', 'i', 's', 'n'] → c ∉ name := fun c h h' => h (hf c h')
+  have h1 : contains (distText1 name a) "flory_schulz".toList = false :=
+    contains_absent _ _ 'f' (by decide) (absent_distText1 _ ha 'f' (by decide) (by decide) (ab _ (by decide)))
+  have h2 : contains (distText1 name a) "gauss".toList = false :=
+    contains_absent _ _ 'g' (by decide) (absent_distText1 _ ha 'g' (by decide) (by decide) (ab _ (by decide)))
+  have h3 : contains (distText1 name a) "uniform".toList = false :=
+    contains_absent _ _ 'u' (by decide) (absent_distText1 _ ha 'u' (by decide) (by decide) (ab _ (by decide)))
+  have h4 : contains (distText1 name a) "schulz_zimm".toList = false :=
+    contains_absent _ _ 'c' (by decide) (absent_distText1 _ ha 'c' (by decide) (by decide) (ab _ (by decide)))
+  have h5 : contains (distText1 name a) "log_normal".toList = false :=
+    contains_absent _ _ 'l' (by decide) (absent_distText1 _ ha 'l' (by decide) (by decide) (ab _ (by decide)))
+  have h6 : contains (distText1 name a) "poisson".toList = true := by rw [hn]; exact contains_at_one _ _ _
+  have hrev : ∃ ys, (name ++ singleText a).reverse = ')' :: ys := ⟨(name ++ '(' :: numStr a).reverse, by simp [singleText]⟩
+  obtain ⟨ys, hys⟩ := hrev
+  have hstrip : stripChars "| \t\n".toList (distText1 name a) = name ++ singleText a := by
+    unfold stripChars distText1
+    have := stripBy_sandwich (fun c => ("| \t\n".toList).contains c) ['|'] (name ++ singleText a) ['|']
+      (by intro c hc; simp at hc; subst hc; decide) (by intro c hc; simp at hc; subst hc; decide)
+      'p' (['o', 'i', 's', 's', 'o', 'n'] ++ singleText a) (by rw [hx]; rfl) (by decide) ')' ys hys (by decide)
+    simpa using this
+  have hname : (famText FamilyName.poisson).toList = name := by rw [← hn]; rfl
+  have hsl : slice (name ++ singleText a) (some ((name.length : Int) + 1)) (some (-1)) = numStr a := slice_inner name (numStr a)
+  unfold parseDist
+  simp only [distDispatch, List.find?_cons, h1, h2, h3, h4, h5, h6]
+  simp only [hname, hstrip, startsWith, isPrefix_append]
+  have e1 : (FamilyName.poisson == FamilyName.poisson) = true := by decide
+  simp only [e1, if_true, Bool.not_true, Bool.false_eq_true, if_false]
+  rw [hsl]
+  simp [floatOf, hpf]
+
+
+/-! ## uniform: bounds printed as integers, read through the tuple syntax and truncated -/
+
+theorem parseDist_pair_uniform (name ta tb : Str) (a b : Rat) (ha : TokOK ta a) (hb : TokOK tb b)
+    (hname : (famText FamilyName.uniform).toList = name) (x : Char) (xs : Str) (hx : name = x :: xs) (hxs : ("| \t\n".toList).contains x = false)
+    (hdisp : distDispatch.find? (fun p => contains (distTextOf name ta tb) p.1.toList) = some (famText FamilyName.uniform, FamilyName.uniform)) :
+    parseDist (distTextOf name ta tb) = .ok { fam := .uniform, params := [truncRat a, truncRat b] } := by
+  have hstrip := strip_distText name ta tb x xs hx hxs
+  have hdrop : ((name ++ pairTextOf ta tb).drop name.length) = pairTextOf ta tb := List.drop_left
+  have e1 : (FamilyName.uniform == FamilyName.poisson) = false := by decide
+  have e2 : (FamilyName.uniform == FamilyName.schulzZimm) = false := by decide
+  have e3 : (FamilyName.uniform == FamilyName.uniform) = true := by decide
+  unfold parseDist
+  rw [hdisp]
+  simp only [hname, hstrip, startsWith, isPrefix_append, hdrop, parseTuple_pair ta tb a b ha hb, e1, e2, e3]
+  simp [famArity]
+
+theorem printDist_uniform (a b : Rat) : printDist { fam := .uniform, params := [a, b] } = distTextOf "uniform".toList (intStr a) (intStr b) := by
+  simp [printDist, distTextOf, pairTextOf, famText]
+
+/-- **C01 / C11 (the text form reproduces the parameters: uniform)**: the bounds are printed as integers (`intStr`); the printed text reads back
+as the same bounds whenever those are whole numbers (`truncRat a = a`) whose digit strings satisfy the side condition -/
+theorem dist_uniform_roundtrip (a b : Rat) (ha : TokOK (intStr a) a) (hb : TokOK (intStr b) b) (hta : truncRat a = a) (htb : truncRat b = b) :
+    parseDist (printDist { fam := .uniform, params := [a, b] }) = .ok { fam := .uniform, params := [a, b] } := by
+  rw [printDist_uniform]
+  generalize hn : "uniform".toList = name
+  have hx : name = 'u' :: ['n', 'i', 'f', 'o', 'r', 'm'] := by rw [← hn]; decide
+  have hf : ∀ c, c ∈ name → c ∈ ['u', 'n', 'i', 'f', 'o', 'r', 'm'] := by intro c hc; rw [hx] at hc; simp at hc ⊢; tauto
+  have ab : ∀ c, c ∉ ['u', 'n', 'i', 'f', 'o', 'r', 'm'] → c ∉ name := fun c h h' => h (hf c h')
+  have h1 : contains (distTextOf name (intStr a) (intStr b)) "flory_schulz".toList = false :=
+    contains_absent _ _ 'l' (by decide) (absent_distText _ ha hb 'l' (by decide) (by decide) (ab _ (by decide)))
+  have h2 : contains (distTextOf name (intStr a) (intStr b)) "gauss".toList = false :=
+    contains_absent _ _ 'g' (by decide) (absent_distText _ ha hb 'g' (by decide) (by decide) (ab _ (by decide)))
+  have h3 : contains (distTextOf name (intStr a) (intStr b)) "uniform".toList = true := by rw [hn]; exact contains_at_one _ _ _
+  have := parseDist_pair_uniform name (intStr a) (intStr b) a b ha hb (by rw [← hn]; rfl) 'u' _ hx (by decide)
+    (by simp only [distDispatch, List.find?_cons, h1, h2, h3]; rfl)
+  rw [this, hta, htb]
+
+/-- non-vacuity: the bounds 12 and 72 -/
+example : TokOK (intStr 12) 12 ∧ TokOK (intStr 72) 72 ∧ truncRat 12 = 12 ∧ truncRat 72 = 72 := by
+  refine ⟨⟨?_, ?_, ?_, ?_, ?_⟩, ⟨?_, ?_, ?_, ?_, ?_⟩, ?_, ?_⟩ <;> decide +kernel
 
 end GBS.P
